@@ -55,47 +55,46 @@ RULE = {
 }
 
 STNAME = {1: 'Idle', 2: 'Open', 3: 'Busy', 4: 'Closed'}
+WATCHDOG_CPU_S = 10.0
 
 
 # ====================================================================== models
 def models(prop, tier):
+  """The registered check models the code AS REPAIRED by fixes/C03-heap-fixup.diff (Repaired = TRUE);
+  HeapBalancer_6u.cfg (Repaired = FALSE = heap.py as found) is kept as a documented counterexample
+  generator: TLC must find the C03.openLeast counterexample on it."""
   quick = tier == 'quick'
+  no_memb = ['AddSink', 'RemoveSink', 'JoinDup', 'LeaveUnknown', 'ChanFlip', 'LateArrive']
+  m6 = dict(module='HeapBalancer', cfg='HeapBalancer_6.cfg', coverage=False, may_be_unused=no_memb,
+            what='6 open members, dispatch + completion with every randint outcome, loads <= 2, exhaustive')
+  m6u = dict(module='HeapBalancer', cfg='HeapBalancer_6u.cfg', expect_violation='NoViolation',
+             what='counterexample generator: heap.py WITHOUT fixes/C03-heap-fixup.diff (only FixDown after '
+                  'Swap(i,size)) violates C03.openLeast with 6 members (3 dispatches, 1 completion with randint 1, '
+                  '4 dispatches)')
+  m4f = dict(module='HeapBalancer', cfg='HeapBalancer_4f.cfg', coverage=quick, may_be_unused=['LateArrive'],
+             what='up to 4 node objects over 3 endpoints: channel down/up at any time, join / leave / re-join / '
+                  'duplicate join / unknown leave, loads <= 1, exhaustive')
+  m3d = dict(module='HeapBalancer', cfg='HeapBalancer_3d.cfg', coverage=True,
+             what='2 endpoints, 3 node objects: removal of idle / loaded / down nodes, re-join while the old node '
+                  'drains, timeout then late arrival, channel down/up, loads <= 2, exhaustive')
+  m4m = dict(module='HeapBalancer', cfg='HeapBalancer_4m.cfg',
+             what='3 endpoints, 4 node objects, loads <= 2: join / leave / re-join with traffic and late arrivals')
+  m7 = dict(module='HeapBalancer', cfg='HeapBalancer_7.cfg', timeout=7200, heap='24g',
+            what='7 open members, dispatch + completion, loads <= 2, exhaustive')
+  m5u = dict(module='HeapBalancer', cfg='HeapBalancer_5u.cfg',
+             what='heap.py as found with 5 members: no counterexample exists below 6 members (calibration)')
+  m4d = dict(module='HeapBalancer', cfg='HeapBalancer_4d.cfg', timeout=7200, heap='24g',
+             what='2 endpoints, 4 node objects, loads <= 1: removal / re-join / down-up / late arrival')
+  lb = dict(module='LbBase', cfg='LbBase_q.cfg' if quick else 'LbBase_t.cfg', coverage=True, timeout=7200,
+            heap='24g',
+            what='open sequence (provider failure + retry, early/late snapshot), __init_done gate, serial '
+                 'notifications: all histories of %d notifications over 3 symmetric endpoint names' % (5 if quick else 6))
   if prop == 'C03':
-    ms = [
-      dict(module='HeapBalancer', cfg='HeapBalancer_6.cfg', coverage=True,
-           what='code as repaired: 6 open members, dispatch + completion (all randint), loads <= 2, exhaustive',
-           may_be_unused=['AddSink', 'RemoveSink', 'JoinDup', 'LeaveUnknown', 'ChanFlip', 'LateArrive']),
-      dict(module='HeapBalancer', cfg='HeapBalancer_5f.cfg', coverage=True,
-           what='code as repaired: up to 5 members, channel down/up, join/leave/re-join, loads <= 2'),
-      dict(module='HeapBalancer', cfg='HeapBalancer_6u.cfg', expect_violation='NoViolation',
-           what='documented counterexample generator: the UNREPAIRED heap.py (no FixUp after Swap(i,size)) '
-                'violates C03.openLeast with 6 members'),
-    ]
-    if not quick:
-      ms.insert(1, dict(module='HeapBalancer', cfg='HeapBalancer_7.cfg', timeout=3000, heap='24g',
-                        what='code as repaired: 7 open members, dispatch + completion, loads <= 2, exhaustive'))
-      ms.insert(2, dict(module='HeapBalancer', cfg='HeapBalancer_6f.cfg', timeout=3000, heap='24g',
-                        what='code as repaired: up to 6 members, channel down/up, join/leave/re-join'))
-    return ms
+    return [m6, m6u, m4f] if quick else [m6, m6u, m5u, m4f, m7]
   if prop == 'C04':
-    ms = [
-      dict(module='HeapBalancer', cfg='HeapBalancer_4d.cfg', coverage=True,
-           what='4 members, removal of idle/loaded/down nodes, re-join while the old node drains, '
-                'timeout then late arrival, loads <= 2'),
-    ]
-    if not quick:
-      ms.append(dict(module='HeapBalancer', cfg='HeapBalancer_6f.cfg', timeout=3000, heap='24g',
-                     what='up to 6 members, channel down/up, join/leave/re-join'))
-    return ms
+    return [m3d, m4m] if quick else [m3d, m4m, m4f, m4d]
   if prop == 'C05':
-    ms = [
-      dict(module='LbBase', cfg='LbBase_q.cfg' if quick else 'LbBase_t.cfg', coverage=True,
-           timeout=3000,
-           what='open sequence + init gate + serial notifications, all histories over 3 endpoint names'),
-      dict(module='HeapBalancer', cfg='HeapBalancer_5f.cfg',
-           what='up to 5 members, join/leave/re-join with traffic (heap membership = server set)'),
-    ]
-    return ms
+    return [lb, m4m] if quick else [lb, m4m, m4f]
   raise ValueError(prop)
 
 
@@ -109,6 +108,7 @@ def _drive(script):
   loop = common.boot()
   import collections
   import logging
+  import signal
   import gevent
   from gevent.event import Event
   from gevent.queue import Queue
@@ -294,6 +294,7 @@ def _drive(script):
         dq.append(n.channel.cid)
         n = n.downq
       return {'heap': heap, 'downq': dq, 'size': b._size,
+              'heap_eps': sorted(eid_of(n.endpoint) for n in b._heap[1:]),
               'servers': sorted(eid_of(x) for x in b._servers),
               'init_done': bool(getattr(b, '_LoadBalancerSink__init_done').is_set())}
     except Exception:
@@ -429,7 +430,8 @@ def _drive(script):
       self.worker = None
       self.release = Event()
       self.calls = 0
-      self.load = script.get('load', {'mode': 'nonblock'})
+      self.load = dict(script.get('load', {'mode': 'nonblock'}))
+      self.fail_next = bool(self.load.get('fail_first'))
 
     def Initialize(self, on_join, on_leave):
       self.on_join, self.on_leave = on_join, on_leave
@@ -441,7 +443,8 @@ def _drive(script):
 
     def GetServers(self):
       self.calls += 1
-      if self.load.get('fail_first') and self.calls == 1:
+      if self.fail_next:
+        self.fail_next = False
         raise Exception('provider unavailable')
       mode = self.load.get('mode', 'nonblock')
       snap = sorted(self.T)
@@ -516,6 +519,25 @@ def _drive(script):
   open_ar = [None]
 
   # ---------------------------------------------------------------- operations
+  class Hang(BaseException):
+    pass
+  hang = [False]
+
+  def on_alarm(_sig, _frm):
+    hang[0] = True
+    raise Hang()
+
+  def guard(what, fn, *args):
+    """Call into the code under test; an exception it raises into its caller is recorded, not fatal."""
+    try:
+      return fn(*args)
+    except Hang:
+      raise
+    except Exception:
+      H.raised += 1
+      emit({'e': 'Raised', 'op': what})
+      return None
+
   def gated():
     ar = open_ar[0]
     return ar is None or not ar.ready()
@@ -549,6 +571,7 @@ def _drive(script):
     emit({'e': 'Comp', 'r': rq['r'], 'n': ch.cid, 'kind': knd})
     H.ref_out[ch.cid] -= 1
     rq['state'] = 'done'
+    rq['kind'] = knd
     if knd == 'fault':
       ch._st = ChannelState.Closed
       emit({'e': 'Chan', 'n': ch.cid, 'st': ch._st})
@@ -556,11 +579,11 @@ def _drive(script):
       srand.forced.append(j)
     st = rq['stack']
     if knd == 'reply':
-      st.AsyncProcessResponseStream('stream')
+      guard('comp', st.AsyncProcessResponseStream, 'stream')
     elif knd == 'timeout':
-      st.AsyncProcessResponseMessage(MethodReturnMessage(error=ScalesTimeout()))
+      guard('comp', st.AsyncProcessResponseMessage, MethodReturnMessage(error=ScalesTimeout()))
     else:
-      st.AsyncProcessResponseMessage(MethodReturnMessage(error=Exception(knd)))
+      guard('comp', st.AsyncProcessResponseMessage, MethodReturnMessage(error=Exception(knd)))
     del srand.forced[:]
 
   def outstanding():
@@ -572,11 +595,14 @@ def _drive(script):
     elif k > 0:
       loop.step(k)
 
+  def q_event():
+    el = eligible()
+    ev.append({'e': 'Q', 'hasE': 0 if el is None else 1, 'elig': el or []})
+
   def do_q():
     loop.settle()
     end()
-    el = eligible()
-    ev.append({'e': 'Q', 'hasE': 0 if el is None else 1, 'elig': el or []})
+    q_event()
 
   def set_chan(ch, st):
     if st == ChannelState.Open and ch.open_ar is not None and not ch.open_ar.ready():
@@ -616,17 +642,21 @@ def _drive(script):
         break
     ev.append({'e': 'Probe', 'got': sorted(got), 'full': 1})
 
-  for op in script['ops']:
+  def do_op(op):
     k = op[0]
     if k == 'open':
-      open_ar[0] = b.Open()
+      open_ar[0] = guard('open', b.Open)
     elif k == 'step':
       quanta(op[1])
     elif k == 'settle':
       do_q()
     elif k == 'release':
+      if len(op) > 2:
+        prov.load['mode'] = 'early' if op[2] else 'late'
       prov.release.set()
       quanta(op[1] if len(op) > 1 else -1)
+    elif k == 'failnext':
+      prov.fail_next = True
     elif k in ('join', 'leave'):
       prov.notify('J' if k == 'join' else 'L', op[1])
       quanta(op[2] if len(op) > 2 else -1)
@@ -662,7 +692,16 @@ def _drive(script):
         rq = o[op[1] % len(o)]
         rq['late'] = True
         emit({'e': 'Late', 'r': rq['r'], 'n': rq['chan'].cid})
-        rq['stack'].AsyncProcessResponseStream('late')
+        guard('late', rq['stack'].AsyncProcessResponseStream, 'late')
+    elif k == 'late_n':
+      o = [H.reqs[r] for r in sorted(H.reqs) if H.reqs[r]['state'] == 'done' and H.reqs[r]['chan'] is not None
+           and H.reqs[r]['chan'].cid == op[1] and not H.reqs[r]['late']]
+      o.sort(key=lambda q: 0 if q.get('kind') == 'timeout' else 1)
+      if o:
+        rq = o[0]
+        rq['late'] = True
+        emit({'e': 'Late', 'r': rq['r'], 'n': rq['chan'].cid})
+        guard('late', rq['stack'].AsyncProcessResponseStream, 'late')
     elif k == 'adv':
       loop.run_for(op[1] / 1000.0)
       loop.settle()
@@ -670,12 +709,31 @@ def _drive(script):
       probe()
     else:
       raise ValueError('unknown op %r' % (op,))
-    end()
-    if want_impl:
-      impl.append(impl_projection())
-  do_q()
+
+  # CPU-time watchdog: a livelock in the code under test (possible in a defective tree) ends the
+  # case; what was recorded so far is judged.  Independent of machine load.
+  signal.signal(signal.SIGVTALRM, on_alarm)
+  signal.setitimer(signal.ITIMER_VIRTUAL, WATCHDOG_CPU_S, 1.0)
+  try:
+    for op in script['ops']:
+      if hang[0]:
+        break
+      do_op(op)
+      end()
+      if op[0] != 'settle' and loop.idle_now():
+        q_event()       # nothing can run at this instant: a quiescent point
+      if want_impl:
+        impl.append(impl_projection())
+    if not hang[0]:
+      do_q()
+  except Hang:
+    pass
+  finally:
+    signal.setitimer(signal.ITIMER_VIRTUAL, 0, 0)
+  if hang[0]:
+    ev.append({'e': 'Hang'})
   out = {'cfg': {'kind': kind, 's0': s0}, 'ev': ev,
-         'meta': {'rand': srand.log[:200], 'degraded': sorted(H.degraded), 'raised': H.raised,
+         'meta': {'rand': srand.log[:200], 'degraded': sorted(H.degraded), 'raised': H.raised, 'hang': hang[0],
                   'errors': [list(e[1:3]) for e in loop.errors][:3], 'channels': len(H.chans)}}
   if want_impl:
     out['impl'] = impl
@@ -805,6 +863,31 @@ def _family_c03():
   return out
 
 
+def _family_c05(kinds=('heap', 'aperture')):
+  """Every history of <= 2 notifications over 2 names while GetServers blocks, x <= 1 after the
+  release, x initial set x early/late snapshot: the init-gate space, enumerated."""
+  import itertools
+  notes = [(k, e) for k in ('join', 'leave') for e in (1, 2)]
+  before = [()] + [(a,) for a in notes] + list(itertools.product(notes, notes))
+  after = [()] + [(a,) for a in notes]
+  out = []
+  for kind in kinds:
+    for s0 in ([], [1]):
+      for mode in ('early', 'late'):
+        for bf in before:
+          for af in after:
+            ops = [['open'], ['settle']]
+            ops += [[k, e, -1] for k, e in bf]
+            ops += [['release', -1]]
+            ops += [[k, e, -1] for k, e in af]
+            ops += [['settle']]
+            sc = {'kind': kind, 's0': s0, 'rseed': 0, 'pol': 'auto', 'load': {'mode': mode}, 'ops': ops}
+            if kind == 'aperture':
+              sc['ap'] = {'min_size': 1, 'max_size': 2, 'min_load': 0.5, 'max_load': 2.0}
+            out.append(sc)
+  return out
+
+
 def cases(prop, tier, seed):
   rng = random.Random(7919 * int(seed) + {'C03': 3, 'C04': 4, 'C05': 5}[prop])
   quick = tier == 'quick'
@@ -825,6 +908,8 @@ def cases(prop, tier, seed):
       out.append(_gen_traffic(rng, 'heap' if i % 2 else 'aperture', prop))
     for i in range(n):
       out.append(_gen_gate(rng, 'heap' if i % 2 else 'aperture'))
+    fam = _family_c05()
+    out.extend(fam[int(seed) % 3::3] if quick else fam)
   return out
 
 
@@ -896,3 +981,176 @@ def extra_coverage(prop, tier, traces):
       if e['e'] == 'Comp':
         comp[e['kind']] = comp.get(e['kind'], 0) + 1
   return {'degraded_projections': deg, 'traces_by_kind': kinds, 'completions_by_kind': comp}
+
+
+# ====================================================================== direction A
+SIM_HEAP = {'C03': ('HeapBalancer_sim7.cfg', 40), 'C04': ('HeapBalancer_sim4.cfg', 40)}
+
+
+def _heap_script(beh):
+  """Translate one HeapBalancer behaviour into a driver script + expected projections."""
+  st0 = beh[0][1]
+  init_n = len(st0['heap'])
+  faults = any(a and a[0] == 'ChanFlip' for a, _ in beh[1:]) or \
+      any(v != 2 for n, v in enumerate(st0['chan'][:init_n]))
+  ops = [['pol', 'sync'], ['open'], ['settle']]
+  expect = [None, None, None]
+  closed_new = None
+  for (act, st) in beh[1:]:
+    name, prm = act
+    if name == 'Dispatch':
+      ops.append(['disp', 0, 0])
+    elif name == 'Put':
+      ops.append(['comp_n', prm[0], prm[2], prm[1]])
+    elif name == 'LateArrive':
+      ops.append(['late_n', prm[0]])
+    elif name in ('AddSink', 'JoinDup'):
+      if name == 'AddSink':
+        n_new = sum(1 for x in st['ns'] if x != 'free')
+        if closed_new is None:
+          closed_new = st['chan'][n_new - 1] != 2
+        ops.append(['pol', 'manual' if closed_new else 'sync'])
+        expect.append(None)
+      ops.append(['join', prm[0], -1])
+    elif name in ('RemoveSink', 'LeaveUnknown'):
+      ops.append(['leave', prm[0], -1])
+    elif name == 'ChanFlip':
+      ops.append(['chan_n', prm[0], prm[1]])
+    else:
+      raise ValueError('unknown action %r' % (act,))
+    load = st['load']
+    P = 100
+    heap = [[n, load[n - 1] - (P if load[n - 1] >= P else 0), 1 if load[n - 1] >= P else 0, i + 1]
+            for i, n in enumerate(st['heap'])]
+    expect.append({'heap': heap, 'downq': list(st['downq']), 'size': len(st['heap'])})
+  script = {'kind': 'heap', 's0': list(range(1, init_n + 1)), 'rseed': 0, 'pol': 'sync', 'shuffle_id': True,
+            'load': {'mode': 'nonblock'}, 'ops': ops, 'impl': True}
+  return script, expect
+
+
+_MV = {'e1': 1, 'e2': 2, 'e3': 3, 'e4': 4}
+
+
+def _lb_script(beh):
+  """Translate one LbBase behaviour into an env-level driver script (quiescing after every
+  environment action) + expected projections at the model's quiescent states."""
+  def mv(x):
+    return _MV.get(x, x)
+  st0 = beh[0][1]
+  ops = []
+  expect = []
+  prev = st0
+  for (act, st) in beh[1:]:
+    name, prm = act
+    if name == 'CallOpen':
+      ops.append(['open'])
+    elif name == 'OpenStart':
+      if prm[0]:
+        ops.append(['failnext'])
+        expect.append(None)
+      ops.append(['settle'] if prev['opc'] == 'spawned' else ['adv', 5000])
+    elif name == 'LoadFinish':
+      ops.append(['release', -1, 1 if prm[0] else 0])
+    elif name == 'Notify':
+      ops.append(['join' if prm[0] == 'J' else 'leave', mv(prm[1]), 0 if prev['opc'] == 'spawned' else -1])
+    elif name == 'WorkerRun':
+      prev = st
+      continue
+    else:
+      raise ValueError('unknown action %r' % (act,))
+    quiescent = st['wpc'] != 'ready' and st['opc'] != 'spawned'
+    if quiescent:
+      live = st['live']
+      heap_eps = sorted(mv(e) for e in live for _ in live[e])
+      expect.append({'servers': sorted(mv(e) for e in st['servers']), 'heap_eps': heap_eps,
+                     'init_done': bool(st['initDone'])})
+    else:
+      expect.append(None)
+    prev = st
+  script = {'kind': 'heap', 's0': sorted(mv(e) for e in st0['T']), 'rseed': 0, 'pol': 'auto', 'shuffle_id': True,
+            'load': {'mode': 'late'}, 'ops': ops, 'impl': True}
+  return script, expect
+
+
+def _replay_case(job):
+  script, expect, which = job['script'], job['expect'], job['which']
+  o = _drive(script)
+  drift = None
+  steps = 0
+  impl = o.get('impl') or []
+  for i, (exp, real) in enumerate(zip(expect, impl)):
+    if exp is None:
+      continue
+    if real is None:
+      drift = {'step': i, 'op': script['ops'][i], 'spec': exp, 'real': 'projection unavailable'}
+      break
+    steps += 1
+    if which == 'heap':
+      got = {'heap': real['heap'], 'downq': real['downq'], 'size': real['size']}
+    else:
+      got = {'servers': real['servers'], 'heap_eps': real.get('heap_eps', []), 'init_done': real['init_done']}
+    if got != exp:
+      drift = {'step': i, 'op': script['ops'][i], 'spec': exp, 'real': got}
+      break
+  return {'cfg': o['cfg'], 'ev': o['ev'], 'meta': o['meta'], 'steps': steps, 'drift': drift}
+
+
+def _counterexample_job():
+  """TLC's shortest counterexample on the model of heap.py AS FOUND (Repaired = FALSE), as a script for
+  the real class: it reproduces there iff the tree under check still has the defect."""
+  import re
+  r = tlc.run_tlc('HeapBalancer', 'HeapBalancer_6u.cfg', workers=4, timeout=900)
+  if r.violated != 'NoViolation':
+    raise RuntimeError('HeapBalancer_6u.cfg: expected a counterexample, got %r %r' % (r.violated, r.error))
+  acts = re.findall(r'^State \d+: <(\w+)(?:\(([^)]*)\))? line', r.stdout, re.M)
+  ops = [['pol', 'sync'], ['open'], ['settle']]
+  for name, prm in acts:
+    if name == 'Dispatch':
+      ops.append(['disp', 0, 0])
+    elif name == 'Put':
+      p = tlc.parse_tla('<<' + prm + '>>')
+      ops.append(['comp_n', p[0], p[2], p[1]])
+    elif name != 'Init':
+      raise RuntimeError('unexpected action %r in the counterexample' % name)
+  sc = {'kind': 'heap', 's0': [1, 2, 3, 4, 5, 6], 'rseed': 0, 'pol': 'sync', 'shuffle_id': True,
+        'load': {'mode': 'nonblock'}, 'ops': ops, 'impl': True}
+  return {'script': sc, 'expect': [None] * len(ops), 'which': 'heap'}
+
+
+def replay_behaviours(prop, tier, seed):
+  quick = tier == 'quick'
+  jobs = []
+  if prop == 'C03':
+    jobs.append(_counterexample_job())
+  if prop in SIM_HEAP:
+    cfg, depth = SIM_HEAP[prop]
+    num = 250 if quick else 3000
+    r, behs = tlc.simulate_behaviours('HeapBalancer', cfg, num=num, depth=depth, seed=int(seed) + 1, timeout=900)
+    if not behs:
+      raise RuntimeError('no behaviours from TLC simulate:\n' + r.stdout[-2000:])
+    for b in behs:
+      sc, ex = _heap_script(b)
+      jobs.append({'script': sc, 'expect': ex, 'which': 'heap'})
+  else:
+    num = 300 if quick else 3000
+    r, behs = tlc.simulate_behaviours('LbBase', 'LbBase_sim.cfg', num=num, depth=14, seed=int(seed) + 1, timeout=900)
+    if not behs:
+      raise RuntimeError('no behaviours from TLC simulate:\n' + r.stdout[-2000:])
+    for b in behs:
+      sc, ex = _lb_script(b)
+      jobs.append({'script': sc, 'expect': ex, 'which': 'lb'})
+  res = common.run_forked(_replay_case, jobs)
+  errs = [x['err'] for x in res if 'err' in x]
+  if errs:
+    raise RuntimeError('replay failed: ' + errs[0])
+  traces, drift, steps = [], [], 0
+  for j, x in zip(jobs, res):
+    o = x['ok']
+    steps += o['steps']
+    if o['drift']:
+      drift.append(o['drift'])
+    sc = dict(j['script'])
+    sc.pop('impl', None)
+    traces.append({'cfg': o['cfg'], 'ev': o['ev'], 'meta': o['meta'], 'script': sc})
+  return {'summary': {'behaviours_replayed': len(jobs), 'steps_compared': steps, 'drift': len(drift)},
+          'traces': traces, 'drift': drift}
